@@ -52,7 +52,8 @@ Inductive cin :=
 | CDofs (gs : list nat) (cn : list (list (list nat))) (d : list nat)
 | CSplitC (gs : list nat) (cn : list (list (list nat))) (ls : list (list nat)) (n : nat)
 | CSplitV (gs : list nat) (cn : list (list (list nat))) (d : list nat) (dim n : nat)
-| CDeduce (ref : list nat) (ls : list (list nat)) (n : nat).
+| CDeduce (ref : list nat) (ls : list (list nat)) (n : nat)
+| CCBasis (bs : list (basis Z VZ)).
 Inductive cout :=
 | OCoo (c : option (list (list nat) * list Z * list nat))
 | ODense (a : option (list (list Z)))
@@ -86,6 +87,13 @@ Definition run (c : cin) : cout :=
   | CSplitC gs cn ls n => ONats (gen_composite_split (mktopo gs cn) ls n)
   | CSplitV gs cn d dim n => ONats (gen_vector_split (mktopo gs cn) (fun K => nth K d 0) dim n)
   | CDeduce ref ls n => OPairs (map (gen_deduce_bfun ref ls) (seq 0 n))
+  | CCBasis bs => match bs with
+                  | [] => ONatss []
+                  | b0 :: rest => match gen_composite_basis Z VZ (list VZ) (fun n x => repeat (0%Z, 0%Z) n ++ [x]) b0 rest false with
+                                  | Some C => ONatss ([bN C; bNbfun C; bnelems C] :: bedofs C)
+                                  | None => ONatss [[0]]       (* rejected *)
+                                  end
+                  end
   end.
 Definition natpair_eqb (a b : nat * nat) := Nat.eqb (fst a) (fst b) && Nat.eqb (snd a) (snd b).
 Definition cout_eqb (a b : cout) : bool :=
@@ -147,7 +155,7 @@ def correspond_tables(ctx, cases):
     from ..c19_oracle import VEC_ELEMS
     rng = ctx.rng
     meshes = ['tri-delaunay', 'quad-jiggled', 'tet-struct', 'hex-jiggled', 'line-random', 'tri-struct', 'tet-delaunay']
-    for c in range(ctx.n(10, 60)):
+    for c in range(ctx.n(6, 60)):
         mname = meshes[c % len(meshes)]
         fam = O1.FAMILY[mname]
         m = O1.make_mesh(mname, rng.randrange(10 ** 6))
@@ -173,6 +181,8 @@ def correspond_tables(ctx, cases):
             for n in range(len(ls)):
                 cases.append((f'(CSplitC {gs} {cn} {lst} {cnat(n)})', f'(ONats {cnats(ix[n].tolist())})', ('splitc', len(ls) >= 2, info)))
                 # the component's own Dofs table (what split_bases builds)
+                if ctx.quick() and n >= 1:
+                    continue
                 cb = Dofs(m, elem.elems[n])
                 cases.append((f'(CDofs {gs} {cn} {cnats(ls[n])})', f'(ONatss {clist([cnats(r) for r in cb.element_dofs.tolist()])})',
                               ('dofs', True, info)))
@@ -195,7 +205,7 @@ def correspond_tables(ctx, cases):
                               ('splitv', elem.dim >= 2, info)))
     # _deduce_bfun on synthetic layouts (components with very different layouts), via a duck-typed element list
     from skfem.element import ElementComposite
-    for c in range(ctx.n(10, 40)):
+    for c in range(ctx.n(6, 40)):
         M = rng.randint(1, 4)
         ref = [rng.randint(1, 4), rng.randint(0, 3), rng.randint(0, 3), 1]
         ls = [[rng.randint(0, 2) for _ in range(4)] for _ in range(M)]
@@ -236,7 +246,7 @@ def correspond(ctx, gen_ok):
     def wfield(nt, nq):
         wt = [[rng.randint(-2, 3) for _ in range(nq)] for _ in range(nt)]
         return wt, DiscreteField(np.array(wt, dtype=float).reshape(nt, nq))
-    for c in range(ctx.n(28, 200)):
+    for c in range(ctx.n(16, 200)):
         Nu, Nv = rng.randint(1, 4), rng.randint(1, 4)
         if c < 10:
             while Nv == Nu:
@@ -289,20 +299,19 @@ def correspond(ctx, gen_ok):
             if A is not None:
                 cases.append((f'(CSum {kt} {wterm} {clist([S.coq_basis(b.tables) for b in us])} {clist([S.coq_basis(b.tables) for b in vs])})',
                               f'(ODense (Some {_zss(A.toarray())}))', ('sum', len(us) * len(vs) >= 2, info)))
-        # dot (square)
+        # dot: rectangular data (NV x NU), x has one entry per column (trial DOF), the result one per row
         if c % 3 == 0:
-            vbs = stub(NU, Nv, nt, nq, dx)
-            cs = _run(ctx, 'stub:elemental', 'Form.elemental on stub bases', info, lambda: form.elemental(ub, vbs, c=wc))
             x = [rng.randint(-3, 3) for _ in range(NU)]
-            D = sorted(rng.sample(range(NU), rng.randint(0, 2)))
-            z = _run(ctx, 'stub:dot', 'COOData.dot', info, lambda: cs.dot(np.array(x, dtype=float), D=np.array(D, dtype=np.int64) if D else None))
+            D = sorted(rng.sample(range(min(NU, NV)), rng.randint(0, 2)))
+            z = _run(ctx, 'stub:dot', 'COOData.dot on rectangular data', dict(info, x=x, D=D),
+                     lambda: coo.dot(np.array(x, dtype=float), D=np.array(D, dtype=np.int64) if D else None))
             if z is not None:
-                cases.append((f'(CDot {kt} {wterm} {ut} {S.coq_basis(vbs.tables)} {clist([cz(v) for v in x])} {cnats(D)})',
-                              f'(OData (Some {clist([cz(v) for v in S.exact_ints(z)])}))', ('dot', True, info)))
-                ref = cs.tocsr() @ np.array(x, dtype=float)
+                cases.append((f'(CDot {kt} {wterm} {ut} {vt} {clist([cz(v) for v in x])} {cnats(D)})',
+                              f'(OData (Some {clist([cz(v) for v in S.exact_ints(z)])}))', ('dot', NU != NV, info)))
+                ref = coo.tocsr() @ np.array(x, dtype=float)
                 ref[D] = np.array(x, dtype=float)[D]
-                if not np.array_equal(ref, z):
-                    ctx.fail('stub:dot', 'COOData.dot differs from the product with the assembled matrix',
+                if np.shape(z) != ref.shape or not np.array_equal(ref, z):
+                    ctx.fail('stub:dot', 'COOData.dot differs from the product with the assembled (rectangular) matrix',
                              dict(info, x=x, D=D, got=np.asarray(z).tolist(), expected=ref.tolist()))
     # ElementVector decoding observed on real elements
     tri, tet, quad = skfem.MeshTri(), skfem.MeshTet(), skfem.MeshQuad()
@@ -319,9 +328,9 @@ def correspond(ctx, gen_ok):
                           ('vec', dim >= 2, info)))
             ctx.hist('vector decode', f'{type(elem).__name__}^{dim}')
     # bmat offsets
-    for c in range(ctx.n(12, 40)):
-        n = rng.randint(1, 6)
-        widths = [rng.randint(1, 4) for _ in range(n)]
+    for c in range(ctx.n(8, 40)):
+        n = rng.randint(1, 6) if c >= 2 else 4 + c
+        widths = [rng.randint(1, 4) for _ in range(n)] if c >= 2 else [2, 3, 4, 5, 1][:n]
         m = rng.randint(1, 2)
         heights = [rng.randint(1, 3) for _ in range(m)]
         blocks = [[sp.csr_matrix(np.ones((h, w))) for w in widths] for h in heights]
@@ -337,9 +346,32 @@ def correspond(ctx, gen_ok):
         if list(M.blocks) != want:
             ctx.fail(BMAT_KEY if n >= 4 else 'bmat-blocks', 'skfem.utils.bmat(...).blocks are not the prefix sums of the block-column widths',
                      dict(info, got=[int(x) for x in M.blocks], expected=want))
+    # CompositeBasis of stub bases: N, Nbfun, nelems and the stacked element_dofs; rejected combinations
+    for c in range(ctx.n(6, 40)):
+        M = rng.randint(1, 3)
+        nt, nq = rng.randint(1, 3), rng.randint(1, 2)
+        dx = S.random_dx(rng, nt, nq)
+        sts = [stub(rng.randint(1, 4), rng.randint(1, 3), nt, nq, dx) for _ in range(M)]
+        bad = c % 4 == 3 and M >= 2
+        if bad:
+            sts[-1] = stub(3, 2, nt + 1, nq, S.random_dx(rng, nt + 1, nq))
+        info = {'bases': [{x: b.tables[x] for x in ('N', 'edofs', 'nt_full')} for b in sts], 'case': c}
+        from skfem.assembly.basis.composite_basis import CompositeBasis
+        try:
+            cb = CompositeBasis(*sts)
+            out = [[int(cb.N), int(cb.Nbfun), int(cb.nelems)]] + cb.element_dofs.tolist()
+        except ValueError:
+            out = [[0]]
+        except Exception as e:  # noqa
+            ctx.fail('stub:compositebasis', f'CompositeBasis on stub bases: unexpected {type(e).__name__}: {e}', info)
+            continue
+        if bad and out != [[0]]:
+            ctx.fail('compositebasis:accepts-different-element-counts', 'CompositeBasis accepted bases with different numbers of elements', info)
+        cases.append((f'(CCBasis {clist([S.coq_basis(b.tables) for b in sts])})', f'(ONatss {clist([cnats(r) for r in out])})',
+                      ('cbasis', M >= 2, info)))
     correspond_tables(ctx, cases)
     if gen_ok:
-        ctx.corr('blocks', IMPORTS, 'run', 'cout_eqb', cases, per_file=(34 if ctx.quick() else 25), defs=DEFS, nontrivial=lambda r: r[1])
+        ctx.corr('blocks', IMPORTS, 'run', 'cout_eqb', cases, per_file=(70 if ctx.quick() else 25), defs=DEFS, nontrivial=lambda r: r[1])
         ctx.sample({'kind': 'stub local matrices (input term, implementation output)', 'input': cases[0][0][:500], 'output': cases[0][1][:300]})
 
 
